@@ -66,7 +66,14 @@ func pathString(p []Op) string {
 	return strings.Join(s, "; ")
 }
 
-var opNames = []string{"a", "out", "zz"}
+// mutNames: names the host adds/removes/sets. `len` is also the name of a
+// builtin function. obsNames: names observed in every state; `zz` is never
+// added, so it stands for "a name that is not declared" (Get: undefined,
+// IsDefined: false, Set: error).
+var (
+	mutNames = []string{"a", "out", "len"}
+	obsNames = []string{"a", "out", "len", "zz"}
+)
 
 func goVal(v string) interface{} {
 	switch v {
@@ -333,7 +340,7 @@ func checkObservers(w *world, m *model, rc []string, where func() string) (fails
 	// per-name observers of every object. The state read through GetAll agrees
 	// with the model at this point, so a deviation here is the observer's.
 	for k, c := range w.objs {
-		for _, n := range opNames {
+		for _, n := range obsNames {
 			got, pan := func() (s string, pan string) {
 				defer func() {
 					if r := recover(); r != nil {
@@ -398,28 +405,29 @@ func replay(si, capObjs int, path []Op) (*world, *model, string) {
 
 // enabledOps lists the alphabet in a state with nobj Compiled objects.
 func enabledOps(nobj int, vals []string) (mut []Op, ro []Op) {
-	for _, n := range opNames {
+	for _, n := range mutNames {
 		for _, v := range vals {
 			mut = append(mut, Op{K: "add", N: n, V: v})
 		}
 	}
-	for _, n := range opNames {
+	for _, n := range mutNames {
 		mut = append(mut, Op{K: "remove", N: n})
 	}
 	mut = append(mut, Op{K: "compile"}, Op{K: "run"})
 	for k := 0; k < nobj; k++ {
 		mut = append(mut, Op{K: "crun", Obj: k}, Op{K: "crunctx", Obj: k})
-		for _, n := range opNames {
+		for _, n := range mutNames {
 			for _, v := range vals {
 				mut = append(mut, Op{K: "cset", Obj: k, N: n, V: v})
 			}
 		}
+		mut = append(mut, Op{K: "cset", Obj: k, N: "zz", V: "nil"}) // never declared: must fail
 		mut = append(mut, Op{K: "cclone", Obj: k})
-		for _, n := range opNames {
+		for _, n := range obsNames {
 			ro = append(ro, Op{K: "cget", Obj: k, N: n})
 		}
 		ro = append(ro, Op{K: "cgetall", Obj: k})
-		for _, n := range opNames {
+		for _, n := range obsNames {
 			ro = append(ro, Op{K: "cisdef", Obj: k, N: n})
 		}
 	}
